@@ -8,6 +8,7 @@ of <= MaxSteps build steps and every world of a pairwise-covering family; Shape 
 Every behaviour is replayed on graphql_blocking (BlockingExecutor) and process_graphql_query (Executor), each on a fresh
 schema object and on one long-lived schema object serving the whole (shuffled) batch: ordered data and error paths must
 equal the reference."""
+import json
 import random
 
 from harness import par, respjudge, tlc
@@ -66,7 +67,7 @@ def make_schema():
     return schema
 
 
-def build_world_schema(deferred=None):
+def build_world_schema(deferred=None, error_lifetime="request"):
     """Schema built in code so that the enum has internal values and the scalar a custom serialiser.
     deferred = "async": every resolver is a coroutine function that yields to the event loop a request-specific number of times
     (ctx["delays"]: seeded per request), so that sibling / list-item resolvers finish in varying orders."""
@@ -84,7 +85,9 @@ def build_world_schema(deferred=None):
             if name == "a":
                 if w["errA"] and t != "Query":
                     # every failing `a` of one request raises the SAME exception object (each position still needs its own error)
-                    raise ctx.setdefault("_err_a", ResolverError("a failed"))
+                    # error_lifetime = "schema": the application raises one module-level constant (NOT_FOUND = ResolverError(...)) in
+                    # every request it serves; what a response reports must still only depend on its own request
+                    raise (reg if error_lifetime == "schema" else ctx).setdefault("_err_a", ResolverError("a failed"))
                 return 7
             if name == "s":
                 return None if w["nullS"] else "str"
@@ -181,10 +184,11 @@ def _worker(args):
     behs, seed = args
     from py_gql import graphql_blocking, process_graphql_query
     rng = random.Random(seed)
-    shared = build_world_schema()
+    shared = build_world_schema(error_lifetime="schema")
     out = {}
     n = 0
     cases = []
+    held = []           # (result, snapshot of its error dictionaries, witness): responses handed out earlier must not change later
     order = list(range(len(behs)))
     rng.shuffle(order)
     for idx in order:
@@ -199,6 +203,7 @@ def _worker(args):
         variables = {"v": w["v"]} if var else None
         xdata = conv_data(b["r"]["data"])
         xerrs = sorted((tuple(p) for p in b["r"]["errs"]), key=repr)
+        fresh_dicts = {}
         for schema_kind in ("fresh", "long-lived"):
             schema = build_world_schema() if schema_kind == "fresh" else shared
             for exe in ("optimised", "generic"):
@@ -219,6 +224,21 @@ def _worker(args):
                     out.setdefault("exec/data/%s/%s/%s" % (exe, schema_kind, shape_key(sel)), ["response data differs from the reference", dict(wit, expected=xdata, got=data)])
                 if errs != xerrs:
                     out.setdefault("exec/errors/%s/%s/%s" % (exe, schema_kind, shape_key(sel)), ["error paths differ from the reference", dict(wit, expected=xerrs, got=errs)])
+                dicts = sorted((json.dumps(e.to_dict(), sort_keys=True, default=str) for e in res.errors))
+                if schema_kind == "fresh":
+                    fresh_dicts[exe] = dicts
+                else:
+                    if exe in fresh_dicts and dicts != fresh_dicts[exe]:
+                        out.setdefault("exec/error-entries-depend-on-history/%s" % exe, ["the errors (message, locations, path) a long-lived schema reports differ from "
+                                       "those of a fresh schema for the same request", dict(wit, fresh=fresh_dicts[exe][:4], long_lived=dicts[:4])])
+                    if res.errors:
+                        held.append((res, dicts, wit))
+                        del held[:-12]
+                    for old_res, snap, old_wit in held[:-1]:
+                        now = sorted((json.dumps(e.to_dict(), sort_keys=True, default=str) for e in old_res.errors))
+                        if now != snap:
+                            out.setdefault("exec/handed-out-result-changes-later/%s" % exe, ["the errors of a result that was already returned changed while a later "
+                                           "request was served", dict(old_wit, before=snap[:4], after=now[:4], later_request=q)])
                 if schema_kind == "fresh" and exe == "generic" and idx % 7 == 0:
                     cases.append(respjudge.project(q, "executed", lambda: res, null_paths=[list(p) for p in xerrs]))
     return out, n, cases
